@@ -17,6 +17,7 @@ MODEL_TARGETS = ["Model/Cluster.vo", "Model/Mpi.vo"]
 CASE_HEADER = ("From Coq Require Import List ZArith QArith.\nFrom EV Require Import Cluster Mpi.\n"
                "Import ListNotations.\n")
 SHARD = 40
+CASE_TIMEOUT = 20.0     # seconds per case for all ranks together (a hang is reported, not waited out)
 RULE = ("world size P in 1..6, 1..7 trajectories of length 1..5 (P <= number of trajectories; ranks owning one trajectory, "
         "equal local lengths under unequal global lengths), dealt round-robin; kinds: kc = kcenters(mpi_mode=True) on every rank "
         "(count and/or radius stop, triangle shortcut) then assemble_striped_ragged_array + convert_local_indices, compared with "
@@ -233,7 +234,7 @@ def run_cluster(c):
         o["smax"] = _q(ops.striped_array_max(res.distances))
         return o
     try:
-        out["ranks"] = mpisim.run_ranks(P, fn, jitter=c.get("jitter"))
+        out["ranks"] = mpisim.run_ranks(P, fn, jitter=c.get("jitter"), timeout=CASE_TIMEOUT)
         out["draws"] = list(recs[0].log)
     except Exception as ex:
         out.update(_err(ex))
@@ -263,7 +264,7 @@ def run_ops(c):
         o["asm_dtype_ok"] = bool(asm.dtype == loc.dtype)
         return o
     try:
-        return {"ranks": mpisim.run_ranks(P, fn, jitter=c.get("jitter"))}
+        return {"ranks": mpisim.run_ranks(P, fn, jitter=c.get("jitter"), timeout=CASE_TIMEOUT)}
     except Exception as ex:
         return _err(ex)
 
@@ -298,19 +299,24 @@ def run_io(c):
                 o[name] = {"lens": [int(v) for v in gl_], "ids": [int(v) for v in loc.reshape(len(loc), -1)[:, 0]],
                            "equal": bool(loc.shape == exp.shape and np.array_equal(loc, exp))}
             return o
-        return {"ranks": mpisim.run_ranks(P, fn, jitter=c.get("jitter"))}
+        return {"ranks": mpisim.run_ranks(P, fn, jitter=c.get("jitter"), timeout=CASE_TIMEOUT)}
     except Exception as ex:
         return _err(ex)
     finally:
         shutil.rmtree(d, ignore_errors=True)
 
 
+_hangs = {}
+
+
 def run_impl(c):
-    if c["kind"] in ("kc", "hybrid"):
-        return run_cluster(c)
-    if c["kind"] == "ops":
-        return run_ops(c)
-    return run_io(c)
+    kind = c["kind"]
+    if _hangs.get(kind, 0) >= 3:     # circuit breaker: do not wait out a tree that hangs on every case
+        return {"err": "RanksTimeout", "msg": "not run: three earlier %s cases already hung" % kind}
+    out = run_cluster(c) if kind in ("kc", "hybrid") else run_ops(c) if kind == "ops" else run_io(c)
+    if out.get("err") == "RanksTimeout":
+        _hangs[kind] = _hangs.get(kind, 0) + 1
+    return out
 
 
 # ----------------------------------------------------------------------------- model terms
